@@ -71,7 +71,8 @@ func TestVerifC12Conc(t *testing.T) {
 		}
 	}
 	var stop int32
-	var lookups, misses int64
+	var lookups, misses, polls int64
+	var next [writers]atomic.Value // identifier writer g is about to store / is storing
 	var wg, rg sync.WaitGroup
 	for g := 0; g < writers; g++ {
 		wg.Add(1)
@@ -82,6 +83,11 @@ func TestVerifC12Conc(t *testing.T) {
 				w, err := v.Marshal()
 				if err != nil {
 					continue
+				}
+				// what a relayer polling the RPC does: the identifier is asked for before and while it is being stored
+				next[g].Store(VaaIDFromVAA(v))
+				if i%4 == 0 {
+					time.Sleep(200 * time.Microsecond)
 				}
 				if err := d.StoreSignedVAA(v); err != nil {
 					say("store of %d/%d failed: %v", g, i, err)
@@ -110,6 +116,17 @@ func TestVerifC12Conc(t *testing.T) {
 					continue
 				}
 				atomic.AddInt64(&lookups, 1)
+				if q < 3 {
+					// pollers: only the identifier that is on its way in (a miss now must not outlive the store's acknowledgement;
+					// that is judged by the other readers and by the audit at the end)
+					if id, ok := next[q%writers].Load().(*vaa.VAAID); ok && id != nil {
+						if _, err := d.GetSignedVAABytes(*id); err != nil && !errors.Is(err, ErrVAANotFound) {
+							say("lookup of %s while it is being stored failed with %v", string(id.Bytes()), err)
+						}
+						atomic.AddInt64(&polls, 1)
+					}
+					continue
+				}
 				if r.below(4) == 0 {
 					// an identifier nobody stores: the same stream, a sequence beyond the writers' range
 					y := x.id
@@ -163,6 +180,6 @@ func TestVerifC12Conc(t *testing.T) {
 	if mons == nil {
 		mons = []string{}
 	}
-	json.NewEncoder(f).Encode(map[string]interface{}{"k": "c12conc", "stores": len(acked), "lookups": atomic.LoadInt64(&lookups), "never_stored_lookups": atomic.LoadInt64(&misses),
+	json.NewEncoder(f).Encode(map[string]interface{}{"k": "c12conc", "stores": len(acked), "lookups": atomic.LoadInt64(&lookups), "never_stored_lookups": atomic.LoadInt64(&misses), "polls_of_the_identifier_being_stored": atomic.LoadInt64(&polls),
 		"wrong_at_the_end": wrong, "writers": writers, "readers": readers, "mon": mons})
 }
